@@ -26,7 +26,7 @@ V_REQUIRES(zck == NULL || __CPROVER_rw_ok(zck, sizeof(*zck)))
 V_REQUIRES(HASH_OBJ_WF(hash))
 V_REQUIRES(hash_type == NULL || __CPROVER_r_ok(hash_type, sizeof(*hash_type)))
 V_ASSIGNS(hash->type, hash->ctx, g_hu_total, g_hu_seen, g_hu_ptr, g_hu_final, g_hu_inits; zck != NULL: zck->error_state)
-V_FREES(hash->ctx)
+V_FREES_CALLEE(hash->ctx)
 V_ENSURES(!__CPROVER_return_value || __CPROVER_is_fresh(hash->ctx, 1)) /*@C03.hash_init.ctx_allocated*/
 V_ENSURES(!__CPROVER_return_value || (hash->type == hash_type && hash_type != NULL && hash->ctx != NULL)) /*@C03.hash_init.initialised*/
 V_ENSURES(__CPROVER_return_value || zck == NULL || zck->error_state > 0 || hash->ctx == NULL) /*@C03.hash_init.failure*/
